@@ -5,7 +5,7 @@ From Verif Require Import Base.Str Base.Lines Model.Renumber Proofs.RenumberProo
 From Verif Require Tie.Pin_TestIdRegex_src Tie.Pin_TestTitleRegex_src Tie.Pin_RuleIdTestFileNameRegex_src
   Tie.Pin_lits_util_renumber_tests_TestRenumberer_processYaml
   Tie.Pin_lits_util_renumber_tests_TestRenumberer_formatEndOfFile
-  Tie.Pin_lits_util_renumber_tests_TestRenumberer_processFile Tie.Pin_max_scan_token_size.
+  Tie.Pin_lits_util_renumber_tests_TestRenumberer_processFile Tie.Pin_max_scan_token_size Tie.Pin_scan_limit_renumber_process_yaml.
 Open Scope N_scope.
 
 (* the running index is max(test_id lines seen, test_title lines seen), in every reachable state *)
